@@ -338,7 +338,11 @@ func (engine) Body(r *simdrv.Run) {
 		n := 3 + r.Cfg(8)
 		for i := 0; i < n; i++ {
 			in := opIn{Span: r.Cfg(nSpans), Task: fmt.Sprintf("t%d", t), Nth: i}
-			switch r.Cfg(12) {
+			switch r.Cfg(13) {
+			case 12:
+				// a getter of the ReadOnlySpan face of the same object, or the provider's ForceFlush: no effect
+				// on the model, but they run concurrently with the mutators (race oracle, deadlocks)
+				in.Kind, in.Code = "read", r.Cfg(10)
 			case 0, 1, 2:
 				in.Kind = "end"
 				in.Code = r.Cfg(4) // 0,1: End(); 2: End(WithStackTrace(true)); 3: End(WithTimestamp(t))
@@ -458,6 +462,32 @@ func (engine) Body(r *simdrv.Run) {
 				case "child":
 					_, c := tp.Tracer(fmt.Sprintf("child%d", in.Nth%2)).Start(ctxs[in.Span], "child")
 					_ = c
+				case "read":
+					if ro, ok := sp.(sdktrace.ReadOnlySpan); ok {
+						switch in.Code {
+						case 0:
+							_ = ro.Name()
+						case 1:
+							_ = ro.Attributes()
+						case 2:
+							_ = ro.Events()
+						case 3:
+							_ = ro.Links()
+						case 4:
+							_ = ro.Status()
+						case 5:
+							_ = ro.EndTime()
+						case 6:
+							_ = ro.ChildSpanCount()
+						case 7:
+							_ = ro.DroppedAttributes() + ro.DroppedEvents() + ro.DroppedLinks()
+						case 8:
+							_ = tp.ForceFlush(context.Background())
+						default:
+							_ = sp.SpanContext()
+							_ = sp.TracerProvider()
+						}
+					}
 				case "unreg-extra":
 					tp.UnregisterSpanProcessor(extras[in.Code])
 					r.Fault("unregister-processor-during-span-ops")
@@ -469,7 +499,7 @@ func (engine) Body(r *simdrv.Run) {
 				if in.Kind == "end" {
 					w.endRets[in.Span] = append(w.endRets[in.Span], ret)
 				}
-				if in.Kind != "unreg-extra" && in.Kind != "reg-extra" {
+				if in.Kind != "unreg-extra" && in.Kind != "reg-extra" && in.Kind != "read" {
 					w.hist = append(w.hist, porcupine.Operation{ClientId: t, Input: in, Call: int64(call), Output: out, Return: int64(ret)})
 				}
 				r.Res.Ops++
